@@ -8,7 +8,7 @@
 From Coq Require Import List Arith Bool Reals QArith Lia Lra ZArith.
 From TLV Require Import Base.Shape Base.PyList Base.Tensor Base.Ops Base.RSum Model.Metrics Model.MetricsSrc Proofs.MetricsProofs
   Proofs.MetricsProofs2 Proofs.MetricsProofs3 Proofs.MetricsProofs4 Proofs.MetricsProofs5 Proofs.MetricsProofs6
-  Proofs.MetricsProofs7 Proofs.MetricsProofs8 Proofs.MetricsProofs9 Proofs.MetricsProofs10 Proofs.MetricsProofs11 Proofs.MetricsProofs12 Proofs.MetricsProofs13 Proofs.MetricsProofs14 Proofs.MetricsProofs15 Proofs.MetricsProofs16 Proofs.MetricsProofs17 Proofs.MetricsProofs18 Proofs.MetricsSrcTie Model.MetricsPermute.
+  Proofs.MetricsProofs7 Proofs.MetricsProofs8 Proofs.MetricsProofs9 Proofs.MetricsProofs10 Proofs.MetricsProofs11 Proofs.MetricsProofs12 Proofs.MetricsProofs13 Proofs.MetricsProofs14 Proofs.MetricsProofs15 Proofs.MetricsProofs16 Proofs.MetricsProofs17 Proofs.MetricsProofs18 Proofs.MetricsProofs19 Proofs.MetricsProofs20 Proofs.MetricsSrcTie Model.MetricsPermute Model.MetricsAxis.
 Import ListNotations.
 Local Close Scope Q_scope.
 Local Open Scope R_scope.
@@ -836,6 +836,11 @@ Theorem C20_cp_permute_full_spec : forall (ref : ptensor R) (arg : parg R) (assi
 Proof. intros ref arg assign. pose proof (cp_permute_full_spec Rops ref arg assign) as H. destruct arg; exact H. Qed.
 Print Assumptions C20_cp_permute_full_spec.
 
+Theorem C20_source_tie_cp_permute_full : forall (F : Type) (Op : fops F) (ref : ptensor F) (arg : parg F) (assign : mat F -> list nat),
+  cp_permute_factors_full_src Op canonical_pp ref arg assign = cp_permute_factors_full Op ref arg assign.
+Proof. exact @cp_permute_full_src_canonical. Qed.
+Print Assumptions C20_source_tie_cp_permute_full.
+
 Theorem C20_cp_permute_compared_factor : forall (t : ptensor R) (j k i : nat), (j < length (pfs t))%nat -> (j < length (pnorm t))%nat ->
   (i < length (nth j (pnorm t) []))%nat ->
   let s := Transforms.nz1 Rops (Transforms.vget Rops (nth j (pnorm t) []) i) in
@@ -849,6 +854,18 @@ Proof.
 Qed.
 Print Assumptions C20_cp_permute_compared_factor.
 
+(* per mode, for weights without a zero: the compared pair is a non-zero column rescaling of the original pair = the premise of
+   C20_cosine_rescaled / C20_congruence_matrix_rescale_invariant / C20_optimal_matching_rescale_invariant *)
+Theorem C20_cp_permute_mode_rescaled : forall (ref t : ptensor R) (k r : nat) (na nb na' nb' : list R),
+  (k < length (pfs ref))%nat -> (k < length (pnorm ref))%nat -> (k < length (pfs t))%nat -> (k < length (pnorm t))%nat ->
+  length (nth k (pnorm ref) []) = r -> length (nth k (pnorm t) []) = r ->
+  (k = 0%nat -> forall i, (i < r)%nat -> Transforms.vget Rops (pw ref) i <> 0 /\ Transforms.vget Rops (pw t) i <> 0) ->
+  let m := mkMode (nth k (pfs ref) []) (nth k (pfs t) []) na nb in
+  let m' := mkMode (nth k (compared Rops true ref) []) (nth k (compared Rops true t) []) na' nb' in
+  exists a b, rescaled r m m' a b /\ scaling_ok true r a b.
+Proof. exact compared_mode_rescaled. Qed.
+Print Assumptions C20_cp_permute_mode_rescaled.
+
 Theorem C20_cp_permute_list_vs_single_refuted :
   exists (ref t t' : ptensor Q) (assign : mat Q -> list nat) outs, pw t' = pw t /\ pfs t' = pfs t /\ pnorm t' = pnorm t /\
     cp_permute_factors_full Qops ref (PSingle t) assign = Ok outs /\
@@ -858,3 +875,48 @@ Proof.
   split; [reflexivity|]. split; [reflexivity|]. split; [reflexivity|]. exact cp_permute_list_vs_single_refuted.
 Qed.
 Print Assumptions C20_cp_permute_list_vs_single_refuted.
+
+(* one absolute value AFTER the product over modes = the mode-by-mode absolute values of the code: the refactoring that the
+   source-tie executor accepts as the canonical record *)
+Theorem C20_abs_after_product : forall (r : nat) (ms : list (cmode R)) (i j : nat), Forall (mode_ok r) ms -> (i < r)%nat -> (j < r)%nat ->
+  mget Rops (mabs Rops (cong_all Rops false r ms)) i j = mget Rops (cong_all Rops true r ms) i j.
+Proof. exact abs_after_product. Qed.
+Print Assumptions C20_abs_after_product.
+
+(* ---------- THE AXIS ARGUMENT IN ALL ITS FORMS, for every regression metric (Model/MetricsAxis.v: the function through which the
+   correspondence routes every regression case) ---------- *)
+Theorem C20_axis_rejected_iff : forall (m : metric) (a : axis_arg) (nd : nat),
+  resolve_axis m a nd = Err <->
+  match a with
+  | AxNone => False
+  | AxInt z => ~ (- Z.of_nat nd <= z < Z.of_nat nd)%Z
+  | AxTuple zs => takes_tuple m = false \/ norm_axes zs nd = Err
+  end.
+Proof. exact resolve_axis_err_iff. Qed.
+Print Assumptions C20_axis_rejected_iff.
+
+Theorem C20_axis_negative_twin : forall (m : metric) (z : Z) (nd : nat), (- Z.of_nat nd <= z < 0)%Z ->
+  resolve_axis m (AxInt z) nd = resolve_axis m (AxInt (z + Z.of_nat nd)) nd /\
+  resolve_axis m (AxInt z) nd = Ok (RedOne (Z.to_nat (z + Z.of_nat nd))).
+Proof. exact resolve_axis_negative. Qed.
+Print Assumptions C20_axis_negative_twin.
+
+Theorem C20_axis_tuple_forms : forall (m : metric) (yt yp : tensor R),
+  (forall z, metric_value Rops sqrt m (AxTuple [z]) yt yp = if takes_tuple m then metric_value Rops sqrt m (AxInt z) yt yp else Err) /\
+  (forall zs zs', Permutation.Permutation zs zs' ->
+     metric_value Rops sqrt m (AxTuple zs) yt yp = metric_value Rops sqrt m (AxTuple zs') yt yp) /\
+  (takes_tuple m = false -> forall zs, metric_value Rops sqrt m (AxTuple zs) yt yp = Err).
+Proof.
+  intros m yt yp. split; [intros z; apply metric_value_singleton|]. split; [intros zs zs' H; now apply metric_value_tuple_order|].
+  intros T zs. unfold metric_value. cbn [resolve_axis]. now rewrite T.
+Qed.
+Print Assumptions C20_axis_tuple_forms.
+
+(* non-vacuity in the executed instance: covariance accepts axis -1 (= axis 1 of a 2 x 2 tensor) and rejects the tuple (-1,) ;
+   MSE accepts both and they agree *)
+Example C20_ex_axis_forms :
+  let y := mk [2; 2]%nat [1; 3; 2; 6]%Q in let z := mk [2; 2]%nat [0; 2; 1; 1]%Q in
+  metric_value Qops (fun x => x) MCov (AxInt (-1)) y z = Ok (mk [2]%nat [1; 0]%Q) /\
+  metric_value Qops (fun x => x) MCov (AxTuple [(-1)%Z]) y z = Err /\
+  metric_value Qops (fun x => x) MMSE (AxTuple [(-1)%Z]) y z = metric_value Qops (fun x => x) MMSE (AxInt 1) y z.
+Proof. vm_compute. repeat split. Qed.
